@@ -53,7 +53,7 @@ theorem realCtx_env (tx : Tx) (i : Nat) : (realCtx tx (i : Int)).env = realEnv t
 
 /-- (was `0 ≤ inIdx` before the C06/C07 audit round 1) for a transaction in wire range and an index ≥ 0
     the modelled `RawSignatureHash` raises nothing on script codes that tokenise -/
-theorem realCtx_inIdx (tx : Tx) (i : Nat) (hwf : FieldsWF tx) : (realCtx tx (i : Int)).SigTotal :=
+theorem realCtx_sigTotal (tx : Tx) (i : Nat) (hwf : FieldsWF tx) : (realCtx tx (i : Int)).SigTotal :=
   ⟨fun sc ht hlen hht hp =>
     ⟨_, real_sigHash tx i sc ht (parses_of_rawIter hp) (by unfold MAX_SCRIPT_SIZE at hlen; omega) hwf hht⟩⟩
 
